@@ -32,7 +32,13 @@ def main():
                                                  'weights': {'action': 8}})
             stats['matrix_heavy'] = stats.get('matrix_heavy', 0) + 1
         else:
-            prog, pop = progs.generate(rng, size=20 if deep else 12, max_depth=4 if deep else 3)
+            # every third of these: routines that write output themselves, called as later values
+            # of a printf whose earlier values are pending meanwhile
+            feats = {'printf_calls': True, 'weights': {'print': 7, 'define': 4}} if i % 3 == 1 else None
+            prog, pop = progs.generate(rng, size=20 if deep else 12, max_depth=4 if deep else 3,
+                                       features=feats)
+            if feats:
+                stats['printf_with_printing_calls'] = stats.get('printf_with_printing_calls', 0) + 1
         cases.append(progcheck.Case(prog, pop))
     # fixed corpus: constructs the property names explicitly
     for text_prog in CORPUS:
